@@ -1,7 +1,9 @@
 import Driver.Util
+import Driver.Pickle
 open Lean
 namespace Driver.Misc
 
-def handle : Handler := fun _ _ => none
+/-- the pre-registered spare slot of `Driver/Main.lean` carries the pickle family (C13) -/
+def handle : Handler := Driver.Pickle.handle
 
 end Driver.Misc
